@@ -347,6 +347,20 @@ def fixup(ctx, fs):
                     o = origin(fix, s['rv'][side])
                     consts |= {a[1] for a in o.atoms if a[0] == 'const'}
     ctx.ob('FIXUP', 'same-bit', len({c for c in consts if c not in (0,)}) == 1, short_loc(fix.span), 'marker bit tested and cleared with the same constant: %s' % sorted(str(c)[-40:] for c in consts))
+    # ... and the rewrite happens exactly under "the marker bit is set": (idx & BIT) != 0 on the edge that looks the key
+    # up, nothing rewritten on the other (an unmarked key indexed with idx ^ BIT is out of range; a marked one left as
+    # it is dangles)
+    lookups = [bb for bb, t in fix.calls() if call_matches(t, ['Index::index', 'Index<I>>::index', 'Index<I> for [T]>::index', 'Index<I> for Vec<T, A>>::index'])
+               or cname(t).endswith('::index') or cname(t).endswith('::get')]
+    marked = bool(lookups)
+    for lb in lookups:
+        good = False
+        for g in cmp_guards(fix, lb):
+            if g['op'] == 'Ne' and any(x.startswith('arith:BitAnd') for x in g['l'].flags) and g['r'].consts() == {0} and not g['r'].params():
+                good = True
+        marked = marked and good
+    ctx.ob('FIXUP', 'rewrite-iff-marked', marked, short_loc(fix.span),
+           'the table of resolved names is indexed only where (idx & BIT) != 0 holds (%d lookup site(s)): %s' % (len(lookups), marked))
     # coverage: arms of the match on RegularType in from_str
     regs = {}
     for r in enum_regions(fs, REG):
